@@ -61,7 +61,7 @@ claimed["C11"] = dict(
    text="Static path/dataflow rules on the verifier-state update decide structural necessary conditions of the update data: every added leaf is recorded on every "
         "path of the add loop, the previous leaf count is read before the add phase, the add lists are sorted after the last insertion, the destroyed-roots list is "
         "computed from the pre-add state, the delete lists come from the core run with emptied targets, every success return hands out the filled update data, the recorded position "
-        "of an added leaf depends on the lifting call, no node is identified by a truncated hash, the leaf count is only ever incremented, and no count taken from a length is narrowed. The hashes and positions inside the lists are not decided.",
+        "of an added leaf depends on the lifting call, no node is identified by a truncated hash, the leaf count is only ever incremented, no count taken from a length is narrowed, and the simulation behind ToDestroy agrees in control structure with its clone in the caching-schedule tracker. The hashes and positions inside the lists are not decided.",
    ref="DESIGN.md 5/C11, engine E2",
    technique="static must-pass-through (dominance over loop latches), ordering and provenance rules on go/ssa; phases resolved by role (custom analyzer)")
 claimed["C07"] = dict(
@@ -94,7 +94,7 @@ claimed["C15"] = dict(
    text="Static guard and dataflow rules on the schedule generator decide, for all histories and limits, the memory bound clause: the working cache grows only "
         "under a strict len(cache) < maxMemory test on the value appended to or right after a one-element removal, and every scheduled position is read from that "
         "cache; the ordering clause: each row is sorted after its last append; and three conditions of completeness: recorded deletions are sorted ascending before de-twinning, "
-        "every recorded root state has the block's deletions applied, the TTL table is recomputed before it is read, tree/branch detection with a discarded error is applied to a tracked position only behind an exact existence test, generating a schedule never writes through a recorded list or an alias of it, no allocation is sized by the memory limit, and a list a helper returns resized is taken from its result. That positions are the right insertion slots and uniqueness are not decided.",
+        "every recorded root state has the block's deletions applied, the TTL table is recomputed before it is read, tree/branch detection with a discarded error is applied to a tracked position only behind an exact existence test, generating a schedule never writes through a recorded list or an alias of it, no allocation is sized by the memory limit, a list a helper returns resized is taken from its result, and the tracker's simulation of the empty roots that additions write over agrees in control structure with the verifier's clone of it. That positions are the right insertion slots and uniqueness are not decided.",
    ref="DESIGN.md 5/C15, engine E2",
    technique="static guard analysis on SSA values, value-web dataflow, must-pass-through rules and order-class dataflow (taint to requires-sorted sinks) on go/ssa (custom analyzer)")
 claimed["C01"] = dict(
